@@ -275,8 +275,11 @@ func c08TreeCase(c Case, res *Result, positions []c08Pos, note func(string, stri
 			return
 		}
 		if want != "ok:"+sexp {
-			res.add(Finding{Kind: "disagreement", Where: "model-roundtrip:" + v.style, Case: c, Expected: "ok:" + sexp, Observed: want,
-				Detail: "the parser model does not read the printed tree back (contradicts the round-trip theorem: generator or extraction problem)"})
+			detail := "the parser model does not read the printed tree back (contradicts the round-trip theorem: generator or extraction problem)"
+			if v.style == "hand" {
+				detail = "{{ " + v.src + " }} is not read as the tree that the operator table of the property gives this text (parser and parser model agree with each other: the table in the code has changed)"
+			}
+			res.add(Finding{Kind: "disagreement", Where: "model-roundtrip:" + v.style, Case: c, Expected: "ok:" + sexp, Observed: want, Detail: detail})
 			return
 		}
 	}
